@@ -149,6 +149,51 @@ fn has_empty_term(n: &SyntaxNode) -> bool {
     n.children().any(has_empty_term)
 }
 
+/// F41 (`kfj`): a dictionary in which a string key written in parentheses (`("a"): 1`) equals another key of the
+/// same dictionary. The parser checks literal keys for duplicates, not key expressions; the formatter drops the
+/// redundant parentheses (pinned by the snapshot of unit/code/paren-in-key.typ), which turns the key into a literal
+/// one and the duplicate into a syntax error. Comments inside the parentheses (which keep them) are not looked at:
+/// the class over-approximates there.
+fn has_paren_key_collision(n: &SyntaxNode) -> bool {
+    use typst_syntax::ast;
+    if n.kind() == K::Dict {
+        let mut keys: Vec<(String, bool)> = Vec::new();
+        for c in n.children() {
+            match c.kind() {
+                K::Named => {
+                    if let Some(id) = c.children().find(|x| x.kind() == K::Ident) {
+                        keys.push((id.text().to_string(), false));
+                    }
+                }
+                K::Keyed => {
+                    if let Some(mut key) = c.children().find(|x| x.cast::<ast::Expr>().is_some()) {
+                        let mut parened = false;
+                        while key.kind() == K::Parenthesized {
+                            match key.children().find(|x| x.cast::<ast::Expr>().is_some()) {
+                                Some(inner) => {
+                                    key = inner;
+                                    parened = true;
+                                }
+                                None => break,
+                            }
+                        }
+                        if let Some(st) = key.cast::<ast::Str>() {
+                            keys.push((st.get().to_string(), parened));
+                        }
+                    }
+                }
+                _ => {}
+            }
+        }
+        for (i, (k, p)) in keys.iter().enumerate() {
+            if keys.iter().enumerate().any(|(j, (k2, p2))| i != j && k == k2 && (*p || *p2)) {
+                return true;
+            }
+        }
+    }
+    n.children().any(has_paren_key_collision)
+}
+
 /// Compare two texts under every property's observation (used to attribute a model/implementation
 /// disagreement to the properties whose observation it changes).
 pub fn obscmp(a: &str, b: &str) -> String {
@@ -260,6 +305,7 @@ pub fn run_with(w: usize, t: usize, reorder: bool, src: &str, given: Option<&str
     f.push(format!("kff={}", has_item_on_bracket_line(root) as u8));
     f.push(format!("kfg={}", has_linebreak_before_punct(root) as u8));
     f.push(format!("kfi={}", has_marker_like_text(root) as u8));
+    f.push(format!("kfj={}", has_paren_key_collision(root) as u8));
     let kfd = obs::obs_off(root).iter().any(|x| matches!(x, Some((_, t)) if t.contains('\n')));
     f.push(format!("kfd={}", kfd as u8));
     typstyle_core::verif_hooks::reset();
@@ -450,6 +496,7 @@ pub fn range(w: usize, t: usize, a: usize, b: usize, src: &str) -> String {
     f.push(format!("kff={}", has_item_on_bracket_line(root) as u8));
     f.push(format!("kfg={}", has_linebreak_before_punct(root) as u8));
     f.push(format!("kfi={}", has_marker_like_text(root) as u8));
+    f.push(format!("kfj={}", has_paren_key_collision(root) as u8));
     let kfd = obs::obs_off(root).iter().any(|x| matches!(x, Some((_, t)) if t.contains('\n')));
     f.push(format!("kfd={}", kfd as u8));
     let cfg = config(w, t, false);
